@@ -18,18 +18,23 @@ func verifC20MinterCtx() (Keeper, sdk.Context) {
 func Verif_C20_minter_messages() {
 	k, ctx := verifC20MinterCtx()
 	authority := verif_str_in("authority", appparams.GetAuthority(), "c4e:someone", "", "notbech32")
-	newMinters := verifArbitraryMinters(verif_choice("newN", 3))
+	vC20Direct = verif_choice("handlerCalledDirectly", 2) == 1
+	maxN := 3
+	if vC20Direct {
+		maxN = 2 // direct calls: 0..1 minters (what runs before the handler's own validation does not depend on the list length)
+	}
+	newMinters := verifArbitraryMinters(verif_choice("newN", maxN))
 	newStart := verif_time_unit("newStart", 1000000, vT0, vT1)
 	ms := NewMsgServerImpl(k)
 	if verif_choice("fullUpdate", 2) == 1 {
 		msg := &types.MsgUpdateParams{Authority: authority, MintDenom: verif_str_in("newDenom", "uc4e", "", "a"), StartTime: newStart, Minters: newMinters}
-		if msg.ValidateBasic() == nil {
+		if verifC20Run(msg.ValidateBasic) {
 			_, _ = ms.UpdateParams(sdk.WrapSDKContext(ctx), msg)
 			verif_reach("handler ran")
 		}
 	} else {
 		msg := &types.MsgUpdateMintersParams{Authority: authority, StartTime: newStart, Minters: newMinters}
-		if msg.ValidateBasic() == nil {
+		if verifC20Run(msg.ValidateBasic) {
 			_, _ = ms.UpdateMintersParams(sdk.WrapSDKContext(ctx), msg)
 			verif_reach("handler ran")
 		}
@@ -66,4 +71,16 @@ func Verif_C20_minter_queries() {
 		}
 	}
 	verif_reach("query ran")
+}
+
+// A handler is exercised when basic validation passes and also when it is called directly, whatever basic validation would say
+// (handlers are reachable without ValidateBasic from other modules and from tests; they carry their own guards). In the direct
+// mode ValidateBasic is not run at all, so its branches do not multiply the handler's.
+var vC20Direct = false
+
+func verifC20Run(basic func() error) bool {
+	if vC20Direct {
+		return true
+	}
+	return basic() == nil
 }
